@@ -53,6 +53,15 @@ type vhStub struct {
 	// progress; pushedInside collects the handlers that pushed nevertheless.
 	inRequest    string
 	pushedInside []string
+	// The same adaptation lock makes a push performed while the plugin's own
+	// pipeline lock is held a lock-order inversion: the runtime calls into the
+	// plugin (adaptation lock, then pipeline lock) while the plugin calls into
+	// the runtime (pipeline lock, then adaptation lock). During a sequentially
+	// delivered configuration update nobody but the updater can hold the
+	// pipeline lock, so a failed TryLock at push time identifies the pusher.
+	inConfigUpdate string
+	lockProbe      func() bool // true when the pipeline lock was free
+	pushedLocked   []string
 }
 
 func (s *vhStub) Run(context.Context) error   { return nil }
@@ -70,6 +79,9 @@ func (s *vhStub) UpdateContainers(u []*api.ContainerUpdate) ([]*api.ContainerUpd
 	if s.inRequest != "" {
 		s.pushedInside = append(s.pushedInside, s.inRequest)
 	}
+	if s.inConfigUpdate != "" && s.lockProbe != nil && !s.lockProbe() {
+		s.pushedLocked = append(s.pushedLocked, s.inConfigUpdate)
+	}
 	return nil, nil
 }
 
@@ -77,6 +89,20 @@ func (s *vhStub) enterRequest(name string) {
 	s.mu.Lock()
 	s.inRequest = name
 	s.mu.Unlock()
+}
+
+func (s *vhStub) enterConfigUpdate(name string) {
+	s.mu.Lock()
+	s.inConfigUpdate = name
+	s.mu.Unlock()
+}
+
+func (s *vhStub) takePushedLocked() []string {
+	s.mu.Lock()
+	defer s.mu.Unlock()
+	p := s.pushedLocked
+	s.pushedLocked = nil
+	return p
 }
 
 func (s *vhStub) takePushedInside() []string {
@@ -178,6 +204,13 @@ func vhStart(policy string, topo *vfkit.Topo, stateDir string, cfg *vhConfig) (*
 		return nil, fmt.Errorf("cache: %w", err)
 	}
 	m.nri = &nriPlugin{resmgr: m, byname: map[string]cache.Container{}, stub: h.stub}
+	h.stub.lockProbe = func() bool {
+		if m.TryLock() {
+			m.Unlock()
+			return true
+		}
+		return false
+	}
 	if err := m.setupPolicy(h.backend); err != nil {
 		return nil, fmt.Errorf("policy: %w", err)
 	}
